@@ -306,6 +306,8 @@ def refract(n, nprime, S, r):
         Sprime, a length 3 vector containing the exitant direction cosines
 
     """
+    # as in reflect: (3,) -> (1,3), so a single ray and a batch share the code
+    S, r = np.atleast_2d(S, r)
     # r is the surface gradient (-Fx, -Fy, 1), which is not a unit vector;
     # the vector form of Snell's law requires the unit normal (cf. reflect)
     r = r / np.sqrt(_multi_dot(r, r))[:, np.newaxis]
